@@ -225,6 +225,21 @@ def is_pair_shape(shape) -> bool:
 # session variables defined in the "used" session state: their names occur in the values ($name, %(x)s)
 SESSION_VARIABLES = [("name", "42"), ("x", "'VARVAL'")]
 SESSION_STATES = ["pristine", "used"]
+# Statements of the "used" session that FAIL, one for every route a statement takes through the cursor
+# ({s3} = the other schema, which holds a table T1; {ph} = the placeholder of the connection's paramstyle):
+FAILING_STATEMENTS = [
+    ("single_step", "SELECT * FROM NO_SUCH_TABLE"),
+    ("single_step_data_error", "INSERT INTO {s3}.T1 (ID) VALUES ('not a number')"),
+    ("create_with_text_length_exists", "CREATE TABLE {s3}.T1 (ID INT, V VARCHAR(10))"),  # several steps, name resolution error
+    ("create_with_comment_exists", "CREATE TABLE {s3}.T1 (ID INT) COMMENT = 'again'"),
+    ("clone_missing_source", "CREATE TABLE X_CLONE CLONE NO_SUCH_TABLE"),
+    ("merge_missing_target", "MERGE INTO NO_SUCH_TABLE t USING (SELECT 1 AS ID) s ON t.ID = s.ID "
+                             "WHEN MATCHED THEN UPDATE SET ID = s.ID WHEN NOT MATCHED THEN INSERT (ID) VALUES (s.ID)"),
+    ("rename_missing_table", "ALTER TABLE NO_SUCH_TABLE RENAME TO X_RENAMED"),
+    ("rename_missing_column", "ALTER TABLE {s3}.T1 RENAME COLUMN NO_SUCH_COLUMN TO W"),
+    ("ctas_data_error", "CREATE TABLE X_CTAS (V VARCHAR(5)) AS SELECT CAST('x' AS INT) AS V"),  # several steps, data error
+    ("executemany", "INSERT INTO NO_SUCH_TABLE (ID) VALUES ({ph})"),
+]
 
 DATE_VALUES = [
     ("year1", dt.date(1, 1, 1)),
